@@ -17,18 +17,30 @@ namespace Pandora.Model.C13
 /-! ### `util.DecodeHeader` (components/providers/http/util/request.go) -/
 
 /-- `[key: value]` -/
-def decodeHeader (h : Bytes) : Res (Bytes × Bytes) := do
-  if h.length < 3 then .err "hdr" else
-  let first ← indexC h 0
-  if first != 91 then .err "hdr" else
-  let last ← indexC h ((h.length : Int) - 1)
-  if last != 93 then .err "hdr" else
-  let inner ← sliceC h 1 ((h.length : Int) - 1)
-  match cut inner 58 with
-  | none => .err "hdr"
-  | some (k, v) =>
-    let k := trimSpace k
-    if k.isEmpty then .err "emptykey" else .ok (k, trimSpace v)
+def decodeHeader (h : Bytes) : Res (Bytes × Bytes) :=
+  if h.length < 3 then .err "hdr"
+  else match indexC h 0 with
+    | .ok first =>
+      if first != 91 then .err "hdr"
+      else match indexC h ((h.length : Int) - 1) with
+        | .ok last =>
+          if last != 93 then .err "hdr"
+          else match sliceC h 1 ((h.length : Int) - 1) with
+            | .ok inner =>
+              match cut inner 58 with
+              | none => .err "hdr"
+              | some (k, v) =>
+                let k := trimSpace k
+                if k.isEmpty then .err "emptykey" else .ok (k, trimSpace v)
+            | .err c => .err c
+            | .panic w => .panic w
+            | .fatal w => .fatal w
+        | .err c => .err c
+        | .panic w => .panic w
+        | .fatal w => .fatal w
+    | .err c => .err c
+    | .panic w => .panic w
+    | .fatal w => .fatal w
 
 /-! ### entries and runs -/
 
@@ -80,24 +92,33 @@ def readBody (fixed : Bool) (size : Int) (rest : Bytes) : Res (Bytes × Bytes) :
     if size < 0 then .err "size"
     else if size > rest.length then .err "trunc"
     else .ok (rest.take size.toNat, rest.drop size.toNat)
-  else do
-    makeC size
-    if size > rest.length then .err "trunc"
-    else .ok (rest.take size.toNat, rest.drop size.toNat)
+  else match makeC size with
+    | .ok () =>
+      if size > rest.length then .err "trunc"
+      else .ok (rest.take size.toNat, rest.drop size.toNat)
+    | .err c => .err c
+    | .panic w => .panic w
+    | .fatal w => .fatal w
 
 /-! ### uripost -/
 
 /-- `uripost.DecodeURI`: `bodySize uri [tag]` -/
-def decodeURI (data : Bytes) : Res (Int × Bytes × Bytes) := do
+def decodeURI (data : Bytes) : Res (Int × Bytes × Bytes) :=
   let parts := split data 32
-  if parts.length < 2 then .err "fmt" else
-  let p0 ← indexC parts 0
-  match atoi p0 with
-  | none => .err "size"
-  | some n =>
-    let uri ← indexC parts 1
-    let tag := if parts.length > 2 then joinWith 32 (parts.drop 2) else []
-    .ok (n, uri, tag)
+  if parts.length < 2 then .err "fmt"
+  else match indexC parts 0 with
+    | .ok p0 =>
+      match atoi p0 with
+      | none => .err "size"
+      | some n =>
+        match indexC parts 1 with
+        | .ok uri => .ok (n, uri, if parts.length > 2 then joinWith 32 (parts.drop 2) else [])
+        | .err c => .err c
+        | .panic w => .panic w
+        | .fatal w => .fatal w
+    | .err c => .err c
+    | .panic w => .panic w
+    | .fatal w => .fatal w
 
 def headerClass {α} (r : Res α) : End :=
   match r with
